@@ -158,7 +158,7 @@ def readme_diamond(ops=()):
 
 def generate(run, tier):
     rng = run.rng("gen")
-    n = 360 if tier == "quick" else 4000
+    n = 360 if tier == "quick" else 3000
     cases = [readme_diamond(),
              readme_diamond([["get", 4, 0, 0], ["get", 3, 0, 1], ["setbases", 4, [2]], ["settag", 2, 1, 20]]),
              readme_diamond([["get", 4, 0, 2], ["setbases", 2, [0]], ["get", 4, 0, 3], ["setbases", 3, [0]]])]
